@@ -1,9 +1,13 @@
 package main
 
 import (
+	"fmt"
+	"sort"
 	"strings"
 
 	"golang.org/x/text/encoding/simplifiedchinese"
+	"luahelper-lsp/langserver/check"
+	"luahelper-lsp/langserver/check/compiler/parser"
 	"luahelper-lsp/langserver/codingconv"
 )
 
@@ -23,4 +27,54 @@ func init() {
 		f := strings.Fields(line)
 		return hx([]byte(codingconv.ConvertStrToUtf8(string(unhex(f[0])))))
 	})
+
+	// the comment map BeginAnalyze hands to the analysis (FileResult.CommentMap), canonical:
+	// entries by ascending key, `key:head:short:[line.col=hex,...]` joined by ';'
+	register("c13.cmap", func(line string) string {
+		p := parser.CreateParser(unhex(strings.TrimSpace(line)), "a.lua")
+		_, cm, _ := p.BeginAnalyze()
+		keys := []int{}
+		for k := range cm {
+			keys = append(keys, k)
+		}
+		sort.Ints(keys)
+		out := []string{}
+		for _, k := range keys {
+			ci := cm[k]
+			ls := []string{}
+			for _, l := range ci.LineVec {
+				ls = append(ls, fmt.Sprintf("%d.%d=%s", l.Line, l.Col, hs(l.Str)))
+			}
+			out = append(out, fmt.Sprintf("%d:%s:%s:[%s]", k, b2s(ci.HeadFlag), b2s(ci.ShortFlag), strings.Join(ls, ",")))
+		}
+		if len(out) == 0 {
+			return "-"
+		}
+		return strings.Join(out, ";")
+	})
+	// the two clean-up functions applied to comment text (completion/signature help: getFinalStrComment; hover: GetStrComment)
+	register("c13.cleanup", func(line string) string {
+		s := string(unhex(strings.TrimSpace(line)))
+		return "final=" + hs(check.VerifFinalStrComment(s, false)) + " hover=" + hs(check.GetStrComment(s))
+	})
+	// oracle leg: GBK decodings (golang.org/x/text directly) of the `G:<hex>` items of a hover case
+	register("c13.gbkdoc", func(line string) string {
+		out := []string{}
+		for _, it := range strings.Fields(line) {
+			if strings.HasPrefix(it, "G:") {
+				ret, err := simplifiedchinese.GBK.NewDecoder().String(string(unhex(it[2:])))
+				if err != nil {
+					out = append(out, it[2:]+"=ERR")
+				} else {
+					out = append(out, it[2:]+"="+hx([]byte(ret)))
+				}
+			}
+		}
+		if len(out) == 0 {
+			return "D:-"
+		}
+		return "D:" + strings.Join(out, ";")
+	})
+	// hover through the REAL server (harness/srv_script.go)
+	register("c13.hover", func(l string) string { return legs["srv.script"](l) })
 }
